@@ -20,6 +20,8 @@ var verifFuzzProgs = []verifTemplate{
 	{"functions-globals", "let g1 = 3;\nlet g2 = 4 + 1;\nfn add(a: int, b: int) -> int { return a + b; }\nfn twice(a: int) -> int { return add(a, a); }\nfn main() {\n  println(add(g1, g2), twice(A));\n}\n"},
 	{"float-arith", "fn main() {\n  println(X + Y, X - Y, 2.0 + 1.0, X < Y);\n}\n"},
 	{"try-match", "fn risky(n: int) -> int { if n > 3 { throw(\"big\"); } return n + 1; }\nfn main() {\n  let v = try { risky(A) } catch e { 0 - 1 };\n  println(v);\n  println(match A { 1 => 10, _ => 20, });\n}\n"},
+	{"compare-conditions", "fn main() {\n  if A <= B { println(\"le\"); } else { println(\"gt\"); }\n  if A >= B { println(\"ge\"); } else { println(\"lt\"); }\n  let c = A < B;\n  let d = A > B;\n  let e = A == B;\n  let f = A != B;\n  println(c, d, e, f);\n  let n = 0;\n  while n <= 2 { n += 1; }\n  println(n);\n  let fl = X <= Y;\n  let fg = X >= Y;\n  println(fl, fg);\n}\n"},
+	{"arith-statements", "fn main() {\n  let s = A + B;\n  let d = A - B;\n  let m = A * K;\n  let q = (A - B) - (B - A);\n  println(s, d, m, q);\n  let t = A;\n  t += B;\n  t -= 3;\n  println(t);\n  let b = P && Q;\n  let o = P || Q;\n  let x = !P;\n  println(b, o, x);\n}\n"},
 	{"none-literal", "fn main() {\n  let n: ?int = none;\n  println(n);\n}\n"},
 	{"null-literal", "fn f() -> null { return null; }\nfn main() {\n  f();\n  println(1);\n}\n"},
 }
